@@ -339,3 +339,4 @@ def oracle(line, out, expect):
         if a > lim:
             return "largest single allocation %d bytes exceeds %d for %d bytes received" % (a, lim, received(line)[0])
     return None
+from ties import of as _tie_of; TIE_LAYOUTS, TIE_PINS, TIE_ENUMS = _tie_of("C07")   # static-tie lemmas (coq/Gen/Tie) this property depends on
